@@ -101,11 +101,13 @@ def generate_code(prog: Program, eng=None) -> str:
     # add the operations, and replace any free parameters with e.g. `p[0]`, `p[1]`
     for cmd in prog.circuit or []:
         name = cmd.op.__class__.__name__
+        # gates without constructor arguments (Fouriergate) keep an internal parameter in ``p``
+        op_params = [] if name == "Fouriergate" else cmd.op.p
         if isinstance(prog, TDMProgram):
             format_dict = {k: f"p[{k[1:]}]" for k in prog.parameters.keys()}
-            params_str = _factor_out_pi(cmd.op.p).format(**format_dict)
+            params_str = _factor_out_pi(op_params).format(**format_dict)
         else:
-            params_str = _factor_out_pi(cmd.op.p)
+            params_str = _factor_out_pi(op_params)
 
         modes = [f"q[{r.ind}]" for r in cmd.reg]
         if len(modes) == 1:
